@@ -52,25 +52,26 @@ func (i *Interp) rw(p value) *rwState {
 	}
 	return st
 }
+
 type wgState struct{ n int64 }
 type onceState struct{ running, done bool }
 
 type concState struct {
-	gs      []*G
-	cur     *G
-	abort   bool
-	fatal   interface{}
-	mutexes map[*value]*mutexState
-	rws     map[*value]*rwState
-	wg      sync.WaitGroup
-	wgs     map[*value]*wgState
-	onces   map[*value]*onceState
-	switches int
+	gs                  []*G
+	cur                 *G
+	abort               bool
+	fatal               interface{}
+	mutexes             map[*value]*mutexState
+	rws                 map[*value]*rwState
+	wg                  sync.WaitGroup
+	wgs                 map[*value]*wgState
+	onces               map[*value]*onceState
+	switches            int
 	states, transitions int
-	sleep    map[int]pendingOp // gid -> its pending op, for sleep-set reduction
-	kinds    map[string]int
-	coarse   bool
-	por      bool
+	sleep               map[int]pendingOp // gid -> its pending op, for sleep-set reduction
+	kinds               map[string]int
+	coarse              bool
+	por                 bool
 }
 
 type abortPath struct{}
@@ -170,8 +171,6 @@ func independent(a, b pendingOp) bool {
 	}
 	return false
 }
-
-
 
 // schedule picks the next goroutine to run; me is the caller (parked or exiting).
 func (i *Interp) schedule(me *G) {
